@@ -730,6 +730,10 @@ class Watcher(object):
             graceful_timeout = self.graceful_timeout
 
         if process.stopping:
+            # somebody else is already killing it: wait until that is over,
+            # callers go on to reap the process and must not find it alive
+            while process.stopping:
+                yield tornado_sleep(0.1)
             raise gen.Return(False)
         try:
             logger.debug("%s: kill process %s", self.name, process.pid)
